@@ -368,6 +368,10 @@ func rewriteFile(pkg *packages.Package, f *ast.File, fn, rel string, wantP bool,
 		var visit func(n ast.Node)
 		addSites := func(list []ast.Stmt, fname string) {
 			for _, s := range list {
+				switch s.(type) {
+				case *ast.CaseClause, *ast.CommClause:
+					continue // the "statements" of a switch/select body are its clauses
+				}
 				p := fset.Position(s.Pos())
 				id := *nextSite
 				*nextSite++
